@@ -271,7 +271,8 @@ def refute(pc, neg, extra_str=3, extra_ref=6, timeout_ms=3000, str_consts=()):
     except OverflowError:
         return z3.unknown, None, 'expansion too large'
     s = z3.Solver()
-    s.set('timeout', timeout_ms)
+    s.set('rlimit', int(timeout_ms * 5000))
+    s.set('timeout', timeout_ms * 6)
     s.add(*expanded)
     s.add(*ex.side)
     s.add(z3.Distinct(*universe[Str]))
